@@ -48,4 +48,30 @@ def stripSpec : Mode → List Byte → List Byte
 
 def isBreak (c : Byte) : Bool := c == 10 || c == 13
 
+/-! ### line and column of an offset.  Line separators are CR LF, a lone CR, or LF. -/
+
+/-- number of line separators in a prefix, given REVERSED (last byte first): every CR counts,
+    an LF counts unless the byte before it is a CR -/
+def breaksR : List Byte → Nat
+  | [] => 0
+  | c :: p =>
+    if c = 13 then 1 + breaksR p
+    else if c = 10 then (if p.head? = some 13 then breaksR p else 1 + breaksR p)
+    else breaksR p
+
+/-- 1-based line of the offset `off` of the text `t` -/
+def lineOf (t : List Byte) (off : Nat) : Nat := 1 + breaksR (t.take off).reverse
+
+/-- 1-based column of the offset: one more than the number of bytes since the last CR/LF -/
+def colOf (t : List Byte) (off : Nat) : Nat :=
+  1 + (((t.take off).reverse).takeWhile (fun c => !isBreak c)).length
+
+/-- length of the line that contains the offset (bytes between the surrounding separators) -/
+def lineLenAt (t : List Byte) (off : Nat) : Nat :=
+  (((t.take off).reverse).takeWhile (fun c => !isBreak c)).length +
+    ((t.drop off).takeWhile (fun c => !isBreak c)).length
+
+/-- number of lines of a text -/
+def lineCount (t : List Byte) : Nat := 1 + breaksR t.reverse
+
 end Nstd.Json
